@@ -15,6 +15,10 @@ NOT_APPLICABLE = {
 
 # property -> (engine, category, technique, text, note, design_ref)
 CLAIMED = {
+    'C08': ('offsets', 'other', 'affine-offset abstract interpretation (every small integer = class index + polynomial in class_start, branch-sensitive) checked at label/index comparisons, label stores and per-class subscripts; def-use rules dead-input and overwritten-store',
+            'Decides the label/index clause for both numbering conventions (a returned label is index + class_start, every per-class array is subscripted by an index, comparisons pair a label with index + class_start) and the input-relevance clause of the one-vs-rest statistics (both label vectors reach the ROC inputs). Priors, means, arg-max optimality, affine invariance and AUC values are NOT decided.',
+            'Trusted: clang AST; class_start in {0,1}; label containers seeded by parameter position (LDA/LDAError #1, LDAPrediction #5).',
+            'DESIGN.md 2/E8, 3/C08'),
     'C16': ('ioflow', 'other', 'writer/reader agreement by dataflow over the call sites (table literal, codec, model field), stream-grammar abstraction of each (de)serialiser compared structurally, SQL effect classification of the constant strings reaching sqlite3_exec/prepare with a must-precede (truncate-before-insert) check, mod/ref purity of the writers, format-precision check',
             'Decides: same tables/codecs/fields on both sides and every container field persisted (one open known finding: PCAMODEL.dmodx); serialiser and deserialiser consume the same grammar and the serialiser allocates what it emits; the history clause as "every write first empties what it fills"; writers do not modify the model; >= 15 fractional digits. SQLite behaviour, text->double rounding and prediction equality after reload are NOT decided.',
             'Trusted: clang AST; SQL reaches the database only through sqlite3_exec / sqlite3_prepare_v2+step with constant format strings (anything else is classified OTHER and cannot discharge the truncate rule).',
